@@ -401,6 +401,21 @@ func inNamed(rel, bucket string) bool {
 	return false
 }
 
+// inNamed: is rel part of the storage of the named bucket? With the sidecar store the attributes of archived
+// versions live under <sidecar>/<absolute path of the versioning directory>/<bucket>/ (the store is addressed with
+// the absolute path of the versioning directory as its "bucket"); the directories leading there are created on
+// first use.
+func (w *world) inNamed(rel, bucket string) bool {
+	if inNamed(rel, bucket) {
+		return true
+	}
+	if bucket == "" {
+		return false
+	}
+	mirror := "L1/L2/sidecar" + filepath.Join(w.jail, "L1", "L2", "versions", bucket)
+	return rel == mirror || strings.HasPrefix(rel, mirror+"/") || strings.HasPrefix(mirror, rel+"/")
+}
+
 func (w *world) run(id string, a attempt, who string, spName string, depth int) {
 	c := w.c
 	cl := w.owner
@@ -445,7 +460,7 @@ func (w *world) run(id string, a attempt, who string, spName string, depth int) 
 		changed = true
 		rel := strings.Fields(d)[1]
 		switch {
-		case !inNamed(rel, a.namedBucket):
+		case !w.inNamed(rel, a.namedBucket):
 			outside = append(outside, d)
 		case strings.Contains(rel, "/.sgwtmp"):
 		case strings.HasPrefix(rel, "L1/L2/root/"+named+"/seed") || rel == "L1/L2/root/"+named+"/top.txt":
@@ -462,7 +477,7 @@ func (w *world) run(id string, a attempt, who string, spName string, depth int) 
 			continue
 		}
 		rel := strings.Fields(d)[1]
-		if !inNamed(rel, a.namedBucket) {
+		if !w.inNamed(rel, a.namedBucket) {
 			continue
 		}
 		full := filepath.Join(w.jail, rel)
